@@ -608,6 +608,7 @@ Proof.
       destruct (lo =? 0).
       * destruct (vty (b_orig b)) eqn:Ty; intros H; injection H as <-; rewrite with_marks_vty; cbn [vty]; congruence.
       * destruct (vty (b_orig b)) eqn:Ty; try (intros H; injection H as <-; rewrite with_marks_vty; cbn [vty]; congruence).
+        { destruct (lo <=? 1024); intros H; injection H as <-; rewrite with_marks_vty; cbn [vty]; congruence. }
         destruct (lo =? 1); [|intros H; injection H as <-; rewrite with_marks_vty; cbn [vty]; congruence].
         intros H. bind_inv H. injection H as <-. rewrite with_marks_vty. apply set_val_single_unknown in Ha. exact Ha.
   - intros H; injection H as <-. rewrite with_marks_vty. reflexivity.
